@@ -70,37 +70,60 @@ def r1_r2(ctx: Ctx, pf: FuncInfo) -> None:
         ctx.unknown('C18.R2', pf, f'{len(build)} FormatSpec constructions')
     bst = fl.stmt_of(build[0])
     # the four rejections, decided on the guards of the raise statements (whatever the spelling of the test: `not a and not b`, `not (a or b)`, nested ifs)
+    # Facts, not spellings: D = a {description} column was given, K = there are custom captures (after captures given next to {description} have been
+    # moved to extra_fields), T = a description template was given, M = a required field is missing, R = the template reference is a capture.
+    def fact(text: str, truth: bool, at):
+        t = text.replace(' ', '')
+        if t in ('has_description', "'description'infield_positions", "field_positions.get('description')isnotNone"):
+            return ('D', truth)
+        if t in ('has_custom', 'custom_captures', 'len(custom_captures)>0', 'bool(custom_captures)', 'len(custom_captures)'):
+            return ('K', truth)
+        if t in ('description_template', 'bool(description_template)'):
+            return ('T', truth)
+        if t in ('missing', 'len(missing)>0'):
+            return ('M', truth)
+        if t.endswith('incustom_captures') and t[:-len('incustom_captures')].isidentifier():
+            return ('R', truth)
+        if t.endswith('isNone') and t[:-6].isidentifier():
+            # `bad = next((r for r in refs if r not in custom_captures), None)` … `if bad is not None: raise`
+            for d_ in cfg.defs_reaching(at, t[:-6]) if cfg.has(at) else ():
+                v_ = getattr(cfg.stmt.get(d_), 'value', None) if d_ != 'param' else None
+                if isinstance(v_, ast.Call) and call_name(v_) == 'next' and len(v_.args) == 2 and isinstance(v_.args[0], ast.GeneratorExp) \
+                        and any(src(c_).replace(' ', '').endswith('notincustom_captures') for g_ in v_.args[0].generators for c_ in g_.ifs):
+                    return ('R', truth)
+        return (text, truth)
     wants = {
-        'missing-required': {('missing', True)},
-        'description-or-captures': {('has_description', False), ('has_custom', False)},
-        'captures-need-template': {('has_custom', True), ('description_template', False)},
-        'template-reference': {('ref in custom_captures', False), ('description_template', True)},
+        'missing-required': {('M', True)},
+        'description-or-captures': {('D', False), ('K', False)},
+        'captures-need-template': {('K', True), ('T', False)},
+        'template-reference': {('R', False), ('T', True)},
     }
-    bound = {n.id for n in ast.walk(pf.node) if isinstance(n, ast.Name) and isinstance(n.ctx, ast.Store)}
-    flags_of = {'description-or-captures': ('has_description', 'has_custom'), 'captures-need-template': ('has_custom',)}
+    # conditions that add nothing: captures only survive to this point when there is no {description} column, so `no description` next to `captures` is implied
+    implied = {'captures-need-template': {('D', False)}}
     raises = [r_ for r_ in cfg.stmts() if isinstance(r_, ast.Raise) and not any(a_ is lp for a_ in ancestors(r_)) and 'ValueError' in src(r_)]
 
     def own_guards(r_):
         # the conditions of the statements enclosing the raise (earlier rejections that ended in a raise of their own are not conditions of this one)
-        encl = {id(a_) for a_ in ancestors(r_)}
+        # … at the top level of the function, that is: inside one compound statement an earlier `if …: raise` is part of the same decision
+        top_ = [a_ for a_ in [r_] + list(ancestors(r_)) if parent(a_) is pf.node]
+        inside = {id(n_) for n_ in ast.walk(top_[0])} if top_ else {id(a_) for a_ in ancestors(r_)}
         lits = set()
         for b_, lab in cfg.guards(r_):
             st_ = cfg.stmt.get(b_)
-            if isinstance(st_, ast.If) and id(st_) in encl and lab in (True, False):
-                lits |= {(src(at), tr) for at, tr in conj_atoms(st_.test, lab)}
+            if isinstance(st_, ast.If) and id(st_) in inside and lab in (True, False):
+                lits |= {fact(src(at), tr, st_) for at, tr in conj_atoms(st_.test, lab)}
         return lits
     g_of = {id(r_): own_guards(r_) for r_ in raises}
-    vocab = {'has_description', 'has_custom', 'description_template', 'custom_captures', 'missing'}
-    stray = [r_ for r_ in raises if g_of[id(r_)] and g_of[id(r_)] not in wants.values()
-             and any(w in vocab for t_, _ in g_of[id(r_)] for w in re.findall(r'[A-Za-z_]+', t_))]
+
+    def is_hit(what, g_):
+        return g_ == wants[what] or (g_ - implied.get(what, set())) == wants[what]
+    syms = {'D', 'K', 'T', 'M', 'R'}
+    stray = [r_ for r_ in raises if g_of[id(r_)] and not any(is_hit(w_, g_of[id(r_)]) for w_ in wants) and any(t_ in syms for t_, _ in g_of[id(r_)])]
     for what, want_g in wants.items():
-        hit = [r_ for r_ in raises if g_of[id(r_)] == want_g]
-        if not hit and any(fl_ not in bound for fl_ in flags_of.get(what, ())):
-            # the flags these tests were written on (has_description / has_custom) are gone: the rejection may well be there in another spelling
-            ctx.unknown('C18.R2', pf, f'{what}: the mode flags {flags_of[what]} are not variables of parse_format_string any more')
+        hit = [r_ for r_ in raises if is_hit(what, g_of[id(r_)])]
         # the same rejection under a further condition rejects less than it should
-        core = {('ref in custom_captures', False)} if what == 'template-reference' else want_g
-        weakened = [r_ for r_ in stray if core <= g_of[id(r_)] and g_of[id(r_)] - want_g]
+        core = {('R', False)} if what == 'template-reference' else want_g
+        weakened = [r_ for r_ in stray if core <= g_of[id(r_)] and g_of[id(r_)] - want_g - implied.get(what, set())]
         if not hit and stray and not weakened:
             ctx.unknown('C18.R2', pf, f'{what}: no ValueError under exactly {sorted(want_g)}, but one under {sorted(g_of[id(stray[0])])} that the rule cannot place')
         dom = False
@@ -108,14 +131,16 @@ def r1_r2(ctx: Ctx, pf: FuncInfo) -> None:
             top = [a_ for a_ in [hit[0]] + list(ancestors(hit[0])) if parent(a_) is pf.node]
             dom = bool(top) and cfg.dominates(top[0], bst)
         ctx.check(bool(hit) and dom, 'C18.R2', pf, f'reject:{what}', f'{what}: raises ValueError before the FormatSpec is built',
-                  f'{what} is not rejected before construction (no ValueError raised under exactly {sorted(want_g)}'
+                  f'{what} is not rejected before construction (no ValueError raised under exactly {sorted(want_g)}; D = description column given, K = custom captures, '
+                  f'T = description template, M = required field missing, R = reference is a capture'
                   + (f'; the one at line {weakened[0].lineno} needs more than that)' if weakened else ')'), hit[0] if hit else None)
     req = [s for s in cfg.stmts() if isinstance(s, ast.Assign) and src(s.targets[0]) == 'required']
     ctx.check(bool(req) and src(req[0].value) in ("{'date', 'amount'}", "{'amount', 'date'}"), 'C18.R2', pf, 'required-set', 'date and amount are required', f'required fields are {src(req[0].value) if req else None}')
     ms = [s for s in cfg.stmts() if isinstance(s, ast.Assign) and src(s.targets[0]) == 'missing']
     ctx.check(bool(ms) and src(ms[0].value).replace(' ', '') == 'required-set(field_positions.keys())', 'C18.R2', pf, 'missing-def', 'missing = required - found', f'missing = {src(ms[0].value) if ms else None}')
     # template references are read from the template text
-    refs = [s for s in cfg.stmts() if isinstance(s, ast.For) and 're.findall' in src(s.iter) and 'description_template' in src(s.iter)]
+    refs = [s for s in cfg.stmts() if isinstance(s, ast.For) and 're.findall' in src(s.iter) and 'description_template' in src(s.iter)] or \
+        [c_ for c_ in fl.calls('findall') if any('description_template' in src(a_) for a_ in c_.args)]
     ctx.check(bool(refs), 'C18.R2', pf, 'template-refs', 'every {name} of the description template is checked', 'template references are not enumerated')
     # construction maps each table entry to the like-named attribute
     kw = {k.arg: src(k.value) for k in build[0].keywords}
@@ -137,8 +162,21 @@ def r1_r2(ctx: Ctx, pf: FuncInfo) -> None:
     for s_ in ast.walk(lp):
         if isinstance(s_, ast.Assign) and any(isinstance(n, ast.Attribute) and n.attr in ('group', 'groups') for n in ast.walk(s_.value)):
             feeds -= {n.id for t in s_.targets for n in ast.walk(t) if isinstance(n, ast.Name)}
-    in_loop = [s_ for s_ in cfg.stmts() if isinstance(s_, ast.Assign) and any(a is lp for a in ancestors(s_)) and any(isinstance(t, ast.Name) and t.id in feeds for t in s_.targets)]
+    def stores_flag(s_, names):
+        return isinstance(s_, ast.Assign) and any(isinstance(n, ast.Name) and n.id in names and isinstance(n.ctx, ast.Store) for t in s_.targets for n in ast.walk(t))
+    in_loop = [s_ for s_ in cfg.stmts() if any(a is lp for a in ancestors(s_)) and stores_flag(s_, feeds)]
     only_amount = bool(in_loop) and all(("field_name == 'amount'", True) in cfg.guard_literals_within(s_, lp) for s_ in in_loop)
+    # the two flags read together out of a constant table keyed by the sign text: `negate_amount, abs_amount = TABLE[sign]`
+    from ._tables import module_value
+    table_rows = None
+    for s_ in in_loop:
+        t_ = s_.targets[0] if len(s_.targets) == 1 else None
+        if isinstance(t_, ast.Tuple) and [getattr(e_, 'id', None) for e_ in t_.elts] == ['negate_amount', 'abs_amount'] and isinstance(s_.value, ast.Subscript) \
+                and isinstance(s_.value.value, ast.Name) and (tv_ := module_value(pf.module, s_.value.value.id)) is not None:
+            try:
+                table_rows = ast.literal_eval(tv_)
+            except (ValueError, SyntaxError):
+                table_rows = None
 
     def tied(flag, sign):
         for s_ in cfg.stmts():
@@ -147,7 +185,10 @@ def r1_r2(ctx: Ctx, pf: FuncInfo) -> None:
                 if f"'{sign}'" in txt and not (isinstance(s_.value, ast.Constant) and s_.value.value is False):
                     return True
         return False
-    ok = only_amount and tied('negate_amount', '-') and tied('abs_amount', '+')
+    if isinstance(table_rows, dict):
+        ok = only_amount and table_rows.get('-') == (True, False) and table_rows.get('+') == (False, True) and all(v_ == (False, False) for k_, v_ in table_rows.items() if k_ not in ('-', '+'))
+    else:
+        ok = only_amount and tied('negate_amount', '-') and tied('abs_amount', '+')
     ctx.check(ok, 'C18.R2', pf, 'sign-mode', '{-amount} -> negate, {+amount} -> abs, only on the amount field', 'sign prefixes are not mapped to negate/abs on the amount field')
     # which group of the {field} pattern a local of the column loop is read from (1 sign, 2 name, 3 format): `x = match.group(k)[.lower()]` or `a, b, c = match.groups()`
     def group_of(name, depth=0):
@@ -186,6 +227,54 @@ def r1_r2(ctx: Ctx, pf: FuncInfo) -> None:
     ok = bool(keys) and all(k.isidentifier() and group_of(k) == {(2, True)} for k in keys)
     ctx.check(ok, 'C18.R2', pf, 'name-lowered', 'field names are the lower-cased name group', f'the column key {sorted(keys)} is not the lower-cased name group of the pattern')
 
+def _detector_table_form(ctx: Ctx, ad: FuncInfo, afl, hl, hidx: str, cstores, kw) -> bool:
+    """The detector written with a table: `for field, patterns in TABLE: if columns[field] is None and <header matches patterns>: columns[field] = idx`
+    and `FormatSpec(date_column=columns['date'], …)`.  Returns False when the code is not of that form (the caller then says so)."""
+    from ._tables import module_value
+    if len(cstores) != 1:
+        return False
+    st = cstores[0]
+    t = st.targets[0] if len(st.targets) == 1 else None
+    if not (isinstance(t, ast.Subscript) and isinstance(t.value, ast.Name) and isinstance(t.slice, ast.Name)):
+        return False
+    cols, fvar = t.value.id, t.slice.id
+    inner = [a for a in ancestors(st) if isinstance(a, ast.For) and a is not hl and isinstance(a.target, ast.Tuple) and len(a.target.elts) == 2
+             and isinstance(a.target.elts[0], ast.Name) and a.target.elts[0].id == fvar]
+    if not inner:
+        return False
+    it = inner[0].iter
+    if isinstance(it, ast.Call) and isinstance(it.func, ast.Attribute) and it.func.attr == 'items' and not it.args:
+        it = it.func.value
+    tv = it
+    if isinstance(it, ast.Name):
+        tv = module_value(ad.module, it.id)
+        if tv is None:
+            loc = [s_ for s_ in ast.walk(ad.node) if isinstance(s_, ast.Assign) and len(s_.targets) == 1 and isinstance(s_.targets[0], ast.Name) and s_.targets[0].id == it.id]
+            tv = loc[0].value if len(loc) == 1 else None
+    rows = {}
+    if isinstance(tv, ast.Dict):
+        pairs = list(zip(tv.keys, tv.values))
+    elif isinstance(tv, (ast.Tuple, ast.List)) and all(isinstance(r_, (ast.Tuple, ast.List)) and len(r_.elts) == 2 for r_ in tv.elts):
+        pairs = [(r_.elts[0], r_.elts[1]) for r_ in tv.elts]
+    else:
+        return False
+    for k_, v_ in pairs:
+        if not (isinstance(k_, ast.Constant) and isinstance(k_.value, str) and isinstance(v_, (ast.Tuple, ast.List, ast.Set))
+                and all(isinstance(e_, ast.Constant) and isinstance(e_.value, str) for e_ in v_.elts)):
+            return False
+        rows[k_.value] = [e_.value for e_ in v_.elts]
+    g = afl.cfg.guard_literals_within(st, hl)
+    first_only = (f'{cols}[{fvar}] is None', True) in g or (f'{fvar} in {cols}', False) in g
+    ctx.check(first_only, 'C18.R4', ad, 'detector:first-header-wins', 'a column keeps the first header that matches it', f'{src(st)!r} is not guarded by `{cols}[{fvar}] is None` / `{fvar} not in {cols}`: a later header replaces the column', st)
+    want = {'date_column': 'date', 'description_column': 'description', 'amount_column': 'amount', 'location_column': 'location'}
+    bad = {k_: kw.get(k_) for k_, f_ in want.items() if kw.get(k_) not in (f"{cols}['{f_}']", f"{cols}.get('{f_}')") or (f_ not in rows)}
+    ctx.check(not bad, 'C18.R4', ad, 'detector-mapping', 'detected indices go to the like-named FormatSpec columns', f'detector builds FormatSpec with {bad}')
+    for f_ in ('date', 'description', 'amount'):
+        ok = f_ in rows and f_ in rows[f_] and not any(f_ in rows[o_] for o_ in rows if o_ != f_ and o_ in ('date', 'description', 'amount'))
+        ctx.check(ok, 'C18.R4', ad, f'detector:{f_}', f"the '{f_}' column is found by the {f_} header words", f"the header words listed for '{f_}' are {rows.get(f_)}: not the {f_} words", st)
+    return True
+
+
 def r3_r4(ctx: Ctx, pf: FuncInfo) -> None:
     proj = ctx.proj
     ci = proj.func('commands.inspect.cmd_inspect')
@@ -194,6 +283,14 @@ def r3_r4(ctx: Ctx, pf: FuncInfo) -> None:
     for s in ast.walk(pf.node):
         if isinstance(s, ast.Assign) and src(s.targets[0]) == 'field_pattern' and isinstance(s.value, ast.Call) and s.value.args and isinstance(s.value.args[0], ast.Constant):
             pat = s.value.args[0].value
+    if pat is None:
+        # precompiled at module level: the pattern whose .match() is applied to each part of the format string
+        from ._tables import fold_str, module_value
+        for c_ in ast.walk(pf.node):
+            if isinstance(c_, ast.Call) and isinstance(c_.func, ast.Attribute) and c_.func.attr in ('match', 'fullmatch') and isinstance(c_.func.value, ast.Name):
+                mv = module_value(pf.module, c_.func.value.id)
+                if isinstance(mv, ast.Call) and dotted(mv.func) == 're.compile' and mv.args:
+                    pat = fold_str(mv.args[0], pf.module)
     if pat is None:
         ctx.unknown('C18.R3', pf, 'field_pattern literal not found')
     try:
@@ -327,6 +424,8 @@ def r3_r4(ctx: Ctx, pf: FuncInfo) -> None:
               (f'after {src(clash[0][0])!r} the same header can still reach {src(clash[0][1])!r}: one header is claimed by two columns (`Payment Date` is both the date and the amount), '
                f'inspect reports overlapping columns and the suggested string lacks a required field') if clash else '', clash[0][0] if clash else None)
     adbound = {n.id for n in ast.walk(ad.node) if isinstance(n, ast.Name) and isinstance(n.ctx, ast.Store)}
+    if not {'date_col', 'desc_col', 'amount_col'} <= adbound and _detector_table_form(ctx, ad, afl, hl, hidx, cstores, kw):
+        return
     if not {'date_col', 'desc_col', 'amount_col'} <= adbound:
         # the detector does not keep one variable per column any more (a table of header patterns filling a dict, say)
         ctx.unknown('C18.R4', ad, 'the detector no longer keeps date_col / desc_col / amount_col variables')
